@@ -354,7 +354,24 @@ def parse_coq_value(txt):
 
 
 def coq_eval_file(path, timeout=600):
-    rc, o = sh(["coqc", "-Q", COQ, "YQ", path], cwd=os.path.dirname(path), timeout=timeout)
+    """Evaluate a generated file; only what it prints matters, so its compiled by-products are removed again
+    (a thorough run writes thousands of shards)."""
+    rc, o = sh(["coqc", "-noglob", "-Q", COQ, "YQ", path], cwd=os.path.dirname(path), timeout=timeout)
+    base = path[:-2] if path.endswith(".v") else path
+    for ext in (".vo", ".vos", ".vok", ".glob"):
+        try:
+            os.remove(base + ext)
+        except OSError:
+            pass
+    try:
+        os.remove(os.path.join(os.path.dirname(path), "." + os.path.basename(base) + ".aux"))
+    except OSError:
+        pass
+    if rc == 0 and os.environ.get("VERIF_KEEP_CASES") != "1":
+        try:
+            os.remove(path)
+        except OSError:
+            pass
     return rc, o
 
 
